@@ -17,10 +17,16 @@
                         spelling of the operator token (any letter case; after `not` any positive number of
                         any WS characters - for `in` exactly one, as the rule IN demands);  wordop_re o: its
                         token rule as transcribed in LexerFull.full_table;  op_negated: the listener's test
-                        strings.Contains(strings.ToLower(text), "not");  norm_tok: a token up to spelling. *)
+                        strings.Contains(strings.ToLower(text), "not");  norm_tok: a token up to spelling;
+     renameE f e        e with every atom name n replaced by f n (f need not be injective: atoms may REPEAT);
+     wrap_many e e'     e' is e with any number of redundant pairs of parentheses added (closure of wrapE true);
+     select rows holds  the rows of a table a predicate selects; val r n: the value of atom n on row r - an
+                        arbitrary function (in the check: what the code answers for the atom alone on that row,
+                        whatever it does with nil / unset fields). *)
 From Coq Require Import List NArith Bool.
 From Storage Require Import Base.Bytes Lang.Tokens Lang.Lexer Lang.BoolGrammar Lang.Listener Lang.BoolSurface
-  Lang.BoolGrammarProofs Lang.LexerProofs Lang.C12Proofs Lang.Regex Lang.LexerFull Lang.WordOps Lang.WordOpsProofs Lang.WordOpsLexProofs.
+  Lang.BoolGrammarProofs Lang.LexerProofs Lang.C12Proofs Lang.Regex Lang.LexerFull Lang.WordOps Lang.WordOpsProofs Lang.WordOpsLexProofs
+  Lang.BoolRows Lang.C12W3Proofs.
 Import ListNotations.
 
 (* every skeleton, in every token spelling, is accepted and evaluates to its or-of-ands meaning:
@@ -152,3 +158,69 @@ Theorem keyword_normal_form : forall k letters cs, kind_in k keyword_kinds = tru
   forallb is_lower letters = true -> spells_word letters cs -> norm_tok k cs = Some (k, letters, false).
 Proof. exact keyword_norm_lemma. Qed.
 Print Assumptions keyword_normal_form.
+
+(* ---- third strengthening: repeated atoms, long re-spellings, rows with nil fields ---- *)
+
+(* atoms may repeat: the image of a skeleton under ANY renaming of its atoms - the same atom text at several
+   leaves, identical sub-expressions as siblings, operands that read alike - is accepted in every spelling and
+   has the value of the original skeleton under the assignment pulled back along the renaming; nothing is merged,
+   dropped or re-ordered because two leaves or two operands carry the same text *)
+Theorem atoms_may_repeat : forall f e ts, spells_filter (renameE f e) ts ->
+  exists b, compile fixed_prec ts = Some b /\ forall rho, eval b rho = sem e (fun n => rho (f n)).
+Proof. exact repeated_atoms_lemma. Qed.
+Print Assumptions atoms_may_repeat.
+
+(* the only sound "X op X is X": both operands are the same EXPRESSION (not merely the same reading) *)
+Theorem same_operand_idempotent : forall e ts1 ts2 b1 b2 rho,
+  spells_filter (EAnd (XParen e) (ELast (XParen e))) ts1 ->
+  spells_filter (EOr (XParen e) (ELast (XParen e))) ts2 ->
+  compile fixed_prec ts1 = Some b1 -> compile fixed_prec ts2 = Some b2 ->
+  eval b1 rho = sem e rho /\ eval b2 rho = sem e rho.
+Proof. exact same_operand_lemma. Qed.
+Print Assumptions same_operand_idempotent.
+
+(* any number of redundant pairs of parentheses (every atom wrapped, the whole filter wrapped several times, ...)
+   changes no result *)
+Theorem redundant_parens_many : forall e e' ts ts' b b' rho,
+  wrap_many e e' -> spells_filter e ts -> spells_filter e' ts' ->
+  compile fixed_prec ts = Some b -> compile fixed_prec ts' = Some b' -> eval b rho = eval b' rho.
+Proof. exact redundant_parens_many_lemma. Qed.
+Print Assumptions redundant_parens_many.
+
+(* a filter and a re-spelling of it (any amounts of white space, any number of redundant parentheses - the token
+   list may be arbitrarily longer) are BOTH accepted, with equal results: acceptance does not depend on how many
+   tokens the spelling has *)
+Theorem respelling_accepted : forall e e' ts ts',
+  wrap_many e e' -> spells_filter e ts -> spells_filter e' ts' ->
+  exists b b', compile fixed_prec ts = Some b /\ compile fixed_prec ts' = Some b' /\
+               forall rho, eval b rho = eval b' rho.
+Proof. exact respelling_accepted_lemma. Qed.
+Print Assumptions respelling_accepted.
+
+(* on a table: the rows a filter selects are the rows on which its surface semantics holds under the row's own
+   valuation of the atoms - whatever that valuation is *)
+Theorem selection_is_rowwise : forall (Row : Type) (rows : list Row) (val : Row -> str -> bool) e ts,
+  spells_filter e ts ->
+  exists b, compile fixed_prec ts = Some b /\
+            select rows (fun r => eval b (val r)) = select rows (fun r => sem e (val r)).
+Proof. exact selection_lemma. Qed.
+Print Assumptions selection_is_rowwise.
+
+(* `not e` / `not (e)` is the exact complement of e on every row: true precisely where e evaluates to false,
+   including the rows where e is false because a compared field is nil *)
+Theorem not_selects_complement : forall (Row : Type) (rows : list Row) (val : Row -> str -> bool) e ts tn tp b bn bp,
+  spells_filter e ts -> spells_filter (ENot e) tn -> spells_filter (ENot (ELast (XParen e))) tp ->
+  compile fixed_prec ts = Some b -> compile fixed_prec tn = Some bn -> compile fixed_prec tp = Some bp ->
+  (forall r, eval bn (val r) = negb (eval b (val r)) /\ eval bp (val r) = negb (eval b (val r))) /\
+  select rows (fun r => eval bn (val r)) = select rows (fun r => negb (eval b (val r))) /\
+  select rows (fun r => eval bp (val r)) = select rows (fun r => negb (eval b (val r))).
+Proof. exact not_complement_lemma. Qed.
+Print Assumptions not_selects_complement.
+
+(* every row is selected by exactly one of  e  and  not (e) *)
+Theorem not_partitions_rows : forall (Row : Type) (val : Row -> str -> bool) e ts tp b bp r,
+  spells_filter e ts -> spells_filter (ENot (ELast (XParen e))) tp ->
+  compile fixed_prec ts = Some b -> compile fixed_prec tp = Some bp ->
+  xorb (eval b (val r)) (eval bp (val r)) = true.
+Proof. exact not_partition_lemma. Qed.
+Print Assumptions not_partitions_rows.
